@@ -164,6 +164,10 @@ func doStatus(h *health.Health) c18Out {
 func scnC18Concurrent(rc *RunCtx) {
 	t := rc.Spec
 	names := []string{"named-pipe-processor", "auditd-processor", "x"}[:1+t.Choose(3, "nnames")]
+	if t.Choose(5, "name.overall") == 0 {
+		// a component may be called like the key that carries the overall verdict
+		names[len(names)-1] = health.OverallReady
+	}
 	nt := 2 + t.Choose(2, "ntasks")
 	var prog [][]c18Op
 	total := 0
@@ -281,7 +285,11 @@ func scnC18Concurrent(rc *RunCtx) {
 				overlap = true
 			}
 		}
-		// internal consistency of one response
+		// internal consistency of one response (when a component is itself called "overall" its
+		// own status and the verdict share one key: then only the model comparison applies)
+		if names[len(names)-1] == health.OverallReady {
+			continue
+		}
 		allOK := true
 		for k, v := range r.Out.Body {
 			if k != health.OverallReady && v != health.ComponentReady {
